@@ -82,7 +82,7 @@ Proof.
     destruct (meta_publish_all _ mps) as [r1 o1]. cbn [fst] in *. rewrite E. auto.
   - destruct (call _ _ _ _ _ _ _ _ _ _ _) as [d o|o|d callee o] eqn:Ecall.
     + cbn [fst]. auto.
-    + specialize (Lv r). destruct (leave r (s_id s)). exact Lv.
+    + match goal with |- context [leave ?R (s_id s)] => specialize (Lv R); destruct (leave R (s_id s)) end. exact Lv.
     + destruct (call_invoked_wf r s req opts proc args kw oracle k d callee o W I Hk Hs Ecall) as (_ & _ & Lk & _).
       intros H. apply (proj1 (Lk x)). eapply run_meta_invocation_lookup_sub. exact H.
   - destruct (cancel _ _ _ _ _) as [d o]. cbn [fst]. auto.
